@@ -1,28 +1,47 @@
-// ---- rule R23: byte chains (trusted model of `into_iter().chain(..)...collect()` over byte sources): the result is the
-//      concatenation, in order, of the bytes each source yields.  Sources: arrays and vectors of u8 (by value or by reference),
-//      byte slices, one byte (`iter::once`), and an already-built chain.
-pub struct VxBytes(pub Vec<u8>);
-pub struct VxOnce(pub u8);
-pub fn vx_once(x: u8) -> (r: VxOnce) ensures r.0 == x { VxOnce(x) }
-pub fn vx_once_ref(x: &u8) -> (r: VxOnce) ensures r.0 == *x { VxOnce(*x) }
-pub struct VxRef<'a>(pub &'a [u8]);
-pub fn vx_ref_src<'a>(s: &'a [u8]) -> (r: VxRef<'a>) ensures r.0@ == s@ { VxRef(s) }
-pub trait VxByteSource: Sized {
-    spec fn vx_seq(self) -> Seq<u8>;
-    fn vx_bytes(self) -> (r: VxBytes) ensures r.0@ == self.vx_seq();
+// ---- rule R23: iterator chains (trusted model of `into_iter().chain(..)...collect()`): the result is the concatenation, in
+//      order, of the elements each source yields.  Sources: arrays and vectors (by value or by reference), slices, one element
+//      (`iter::once`), an optional source (`OPT.into_iter().flatten()`), and an already-built chain.  Element type `T` (bytes in
+//      every use but one: the packet list of the CTAPHID sender).
+pub struct VxChain<T>(pub Vec<T>);
+pub type VxBytes = VxChain<u8>;
+pub struct VxOnce<T>(pub T);
+pub fn vx_once<T>(x: T) -> (r: VxOnce<T>) ensures r.0 == x { VxOnce(x) }
+pub fn vx_once_ref<T: Copy>(x: &T) -> (r: VxOnce<T>) ensures r.0 == *x { VxOnce(*x) }
+pub struct VxRef<'a, T>(pub &'a [T]);
+pub fn vx_ref_src<'a, T>(s: &'a [T]) -> (r: VxRef<'a, T>) ensures r.0@ == s@ { VxRef(s) }
+pub trait VxByteSource<T>: Sized {
+    spec fn vx_seq(self) -> Seq<T>;
+    fn vx_bytes(self) -> (r: VxChain<T>) ensures r.0@ == self.vx_seq();
 }
-impl<const N: usize> VxByteSource for [u8; N] { open spec fn vx_seq(self) -> Seq<u8> { self@ } #[verifier::external_body] fn vx_bytes(self) -> (r: VxBytes) { VxBytes(self.to_vec()) } }
-impl<'a, const N: usize> VxByteSource for &'a [u8; N] { open spec fn vx_seq(self) -> Seq<u8> { self@ } #[verifier::external_body] fn vx_bytes(self) -> (r: VxBytes) { VxBytes(self.to_vec()) } }
-impl VxByteSource for Vec<u8> { open spec fn vx_seq(self) -> Seq<u8> { self@ } fn vx_bytes(self) -> (r: VxBytes) { VxBytes(self) } }
-impl<'a> VxByteSource for &'a Vec<u8> { open spec fn vx_seq(self) -> Seq<u8> { self@ } #[verifier::external_body] fn vx_bytes(self) -> (r: VxBytes) { VxBytes(self.clone()) } }
-impl<'a> VxByteSource for &'a [u8] { open spec fn vx_seq(self) -> Seq<u8> { self@ } #[verifier::external_body] fn vx_bytes(self) -> (r: VxBytes) { VxBytes(self.to_vec()) } }
-impl<'a> VxByteSource for VxRef<'a> { open spec fn vx_seq(self) -> Seq<u8> { self.0@ } #[verifier::external_body] fn vx_bytes(self) -> (r: VxBytes) { VxBytes(self.0.to_vec()) } }
-impl VxByteSource for VxOnce { open spec fn vx_seq(self) -> Seq<u8> { seq![self.0] } #[verifier::external_body] fn vx_bytes(self) -> (r: VxBytes) { VxBytes(vec![self.0]) } }
-impl VxByteSource for VxBytes { open spec fn vx_seq(self) -> Seq<u8> { self.0@ } fn vx_bytes(self) -> (r: VxBytes) { self } }
+impl<T, const N: usize> VxByteSource<T> for [T; N] { open spec fn vx_seq(self) -> Seq<T> { self@ } #[verifier::external_body] fn vx_bytes(self) -> (r: VxChain<T>) { VxChain(Vec::from(self)) } }
+impl<'a, T: Copy, const N: usize> VxByteSource<T> for &'a [T; N] { open spec fn vx_seq(self) -> Seq<T> { self@ } #[verifier::external_body] fn vx_bytes(self) -> (r: VxChain<T>) { VxChain(self.to_vec()) } }
+impl<T> VxByteSource<T> for Vec<T> { open spec fn vx_seq(self) -> Seq<T> { self@ } fn vx_bytes(self) -> (r: VxChain<T>) { VxChain(self) } }
+impl<'a, T: Copy> VxByteSource<T> for &'a Vec<T> { open spec fn vx_seq(self) -> Seq<T> { self@ } #[verifier::external_body] fn vx_bytes(self) -> (r: VxChain<T>) { VxChain(self.clone()) } }
+impl<'a, T: Copy> VxByteSource<T> for &'a [T] { open spec fn vx_seq(self) -> Seq<T> { self@ } #[verifier::external_body] fn vx_bytes(self) -> (r: VxChain<T>) { VxChain(self.to_vec()) } }
+impl<'a, T: Copy> VxByteSource<T> for VxRef<'a, T> { open spec fn vx_seq(self) -> Seq<T> { self.0@ } #[verifier::external_body] fn vx_bytes(self) -> (r: VxChain<T>) { VxChain(self.0.to_vec()) } }
+impl<T> VxByteSource<T> for VxOnce<T> { open spec fn vx_seq(self) -> Seq<T> { seq![self.0] } #[verifier::external_body] fn vx_bytes(self) -> (r: VxChain<T>) { VxChain(vec![self.0]) } }
+impl<T> VxByteSource<T> for VxChain<T> { open spec fn vx_seq(self) -> Seq<T> { self.0@ } fn vx_bytes(self) -> (r: VxChain<T>) { self } }
 pub struct VxOpt<S>(pub Option<S>);
-pub fn vx_opt_src<S: VxByteSource>(o: Option<S>) -> (r: VxOpt<S>) ensures r.0 == o { VxOpt(o) }
-impl<S: VxByteSource> VxByteSource for VxOpt<S> { open spec fn vx_seq(self) -> Seq<u8> { match self.0 { Some(s) => s.vx_seq(), None => Seq::empty() } } #[verifier::external_body] fn vx_bytes(self) -> (r: VxBytes) { match self.0 { Some(s) => s.vx_bytes(), None => VxBytes(Vec::new()) } } }
-impl VxBytes {
-    #[verifier::external_body] pub fn vx_then<S: VxByteSource>(self, s: S) -> (r: VxBytes) ensures r.0@ == self.0@ + s.vx_seq() { let mut v = self.0; v.extend(s.vx_bytes().0); VxBytes(v) }
-    pub fn vx_collect(self) -> (r: Vec<u8>) ensures r@ == self.0@ { self.0 }
+pub fn vx_opt_src<S>(o: Option<S>) -> (r: VxOpt<S>) ensures r.0 == o { VxOpt(o) }
+impl<T, S: VxByteSource<T>> VxByteSource<T> for VxOpt<S> { open spec fn vx_seq(self) -> Seq<T> { match self.0 { Some(s) => s.vx_seq(), None => Seq::empty() } } #[verifier::external_body] fn vx_bytes(self) -> (r: VxChain<T>) { match self.0 { Some(s) => s.vx_bytes(), None => VxChain(Vec::new()) } } }
+impl<T> VxChain<T> {
+    #[verifier::external_body] pub fn vx_then<S: VxByteSource<T>>(self, s: S) -> (r: VxChain<T>) ensures r.0@ == self.0@ + s.vx_seq() { let mut v = self.0; v.extend(s.vx_bytes().0); VxChain(v) }
+    pub fn vx_collect(self) -> (r: Vec<T>) ensures r@ == self.0@ { self.0 }
 }
+// rule R24: `s.chunks(n).enumerate().map(f)`: element k of the result is f(k, k-th chunk), the chunks are consecutive pieces of n
+// elements, the last one shorter when the length is not a multiple of n
+pub open spec fn vx_chunk_count(len: int, n: int) -> int { if len == 0 { 0 } else { (len + n - 1) / n } }
+pub open spec fn vx_chunk<T>(s: Seq<T>, n: int, k: int) -> Seq<T> { s.subrange(k * n, if (k + 1) * n <= s.len() { (k + 1) * n } else { s.len() as int }) }
+#[verifier::external_body]
+pub fn vx_chunks_enumerate_map<'a, T, U, F: Fn((usize, &'a [T])) -> U>(s: &'a [T], n: usize, f: F) -> (r: VxChain<U>)
+    requires n > 0,
+        forall|k: int, c: &'a [T]| 0 <= k < vx_chunk_count(s@.len() as int, n as int) && c@ == vx_chunk(s@, n as int, k) ==> #[trigger] call_requires(f, ((k as usize, c),)),
+    ensures r.0@.len() == vx_chunk_count(s@.len() as int, n as int),
+        forall|k: int| 0 <= k < r.0@.len() ==> exists|c: &'a [T]| c@ == vx_chunk(s@, n as int, k) && call_ensures(f, ((k as usize, c),), #[trigger] r.0@[k]),
+{ VxChain(s.chunks(n).enumerate().map(f).collect()) }
+// rule R26: `x[a..].iter_mut().for_each(|b| *b = v)`
+#[verifier::external_body]
+pub fn vx_fill_from<const N: usize>(x: &mut [u8; N], a: usize, v: u8)
+    requires a <= N,
+    ensures forall|i: int| 0 <= i < N ==> final(x)@[i] == (if i >= a { v } else { old(x)@[i] }),
+{ x[a..].iter_mut().for_each(|b| *b = v) }
